@@ -475,6 +475,57 @@ def corr_gauss(ctx, sf, n_cases):
                     ctx.disagree(name + " (one-mode closed form)", case, w1, impl)
 
 
+# ================================================================ (a) correspondence: Gaussian dm / reduced_dm layout
+
+def corr_gauss_dm(ctx, sf, n_cases):
+    """which Fock tensor `BaseGaussianState.dm()` / `reduced_dm(modes)` hands out and in which index layout, on 1-4 modes, pure and
+    mixed; thewalrus' `state_vector` / `density_matrix` are scripted to return Gaussian-integer tensors so the comparison is exact"""
+    from unittest import mock
+    import strawberryfields.backends.states as st_mod
+    rng, nprng = ctx.rng, ctx.nprng(19)
+    sf.hbar = 2
+    cases = []
+    sizes = itertools.cycle([3, 4, 3, 2, 3, 1, 4, 3])
+    for it in range(n_cases):
+        n = next(sizes)
+        D = 2 if n == 4 else rng.choice([2, 3])
+        pure = rng.random() < 0.6
+        u = rng.random()
+        if u < 0.45:
+            modes, via_dm = list(range(n)), rng.random() < 0.5
+        else:
+            modes, via_dm = rand_modes_arg(rng, n), False
+        k = len(modes)
+        psi = simcorr.rand_int_tensor(nprng, (D,) * k, -2, 2) if k <= 4 else np.zeros((D,) * 4)
+        T = simcorr.rand_int_tensor(nprng, (D,) * (2 * k), -2, 2) if k <= 4 else np.zeros((D,) * 8)
+        req = dict(op="st.gaussdm", D=D, n=n, modes=modes, pure=pure, psi=flat(psi), T=flat(T))
+        case = dict(kind="gaussDm", n=n, D=D, modes=modes, pure=pure, via_dm=via_dm)
+
+        def real(n=n, D=D, modes=modes, pure=pure, via_dm=via_dm, psi=psi, T=T):
+            cov = np.identity(2 * n) * (1.0 if pure else 2.0)
+            st = gauss_state_obj(sf, np.zeros(2 * n), cov, n)
+            assert bool(st.is_pure) == pure
+            with mock.patch.object(st_mod.twq, "state_vector", lambda *a, **kw: psi.copy()), \
+                    mock.patch.object(st_mod.twq, "density_matrix", lambda *a, **kw: T.copy()):
+                r = call(st.dm, cutoff=D) if via_dm else call(st.reduced_dm, list(modes), cutoff=D)
+            if is_exc(r):
+                return dict(err=r[1])
+            return dict(k=np.ndim(r) // 2, t=flat(r))
+        cases.append((req, real, case, n >= 3 and k == n))
+    answers = ctx.lean([c[0] for c in cases])
+    for (req, real, case, nt), model in zip(cases, answers):
+        impl = real()
+        ctx.corr_cases += 1
+        ctx.count("corr:gauss:dm-layout:n=%d:%s" % (case["n"], "pure" if case["pure"] else "mixed"), case | dict(p=req["psi"]), nt,
+                  sample=case)
+        if isinstance(model, dict) and "err" in model and "err" in impl:
+            if model["err"] != impl["err"]:
+                ctx.disagree("States.gaussReducedDm error kind", case, model, impl)
+            continue
+        if model != impl:
+            ctx.disagree("States.gaussReducedDm vs BaseGaussianState.dm/reduced_dm", case, str(model)[:300], str(impl)[:300])
+
+
 # ================================================================ (a) correspondence: bosonic
 
 def bosonic_arrays(rng, nprng, n, nw):
@@ -494,7 +545,8 @@ def corr_bosonic(ctx, sf, n_cases):
     rng, nprng = ctx.rng, ctx.nprng(18)
     sf.hbar = 2
     cases = []
-    kinds = ["reducedBosonic", "backendState", "parity", "displacement", "walrus", "meanPhoton", "quad", "marginal"]
+    kinds = ["reducedBosonic", "backendState", "parity", "displacement", "walrus", "meanPhoton", "quad", "marginal",
+             "fidelityArgs", "purityArgs", "wignerArgs"]
     for it in range(n_cases):
         kind = kinds[it % len(kinds)]
         n = rng.randint(1, 4)
@@ -545,12 +597,33 @@ def corr_bosonic(ctx, sf, n_cases):
                 if kind == "quad":
                     return np.array(st.quad_expectation(m, phi), dtype=float)
                 return np.array(st.marginal(m, xv, phi), dtype=float)
+        elif kind in ("fidelityArgs", "purityArgs"):
+            modes = list(range(n))
+            comps = [dict(w=fr(w[i]), mu=[fr(x) for x in mus[i]], cov=[[fr(x) for x in row] for row in covs[i]]) for i in range(nw)]
+            al = [complex(rng.randint(-3, 3) / 4, rng.randint(-3, 3) / 4) for _ in range(n)]
+            # hbar = 2: sqrt(2 hbar) = 2 and hbar / 2 = 1 are rational
+            req = dict(op="st.bosonic", kind=kind, n=n, modes=modes, comps=comps, are=[fr(a.real) for a in al],
+                       aim=[fr(a.imag) for a in al], sq=fr(2), h2=fr(1))
+
+            def real(st=st, kind=kind, al=al):
+                return complex(st.fidelity_coherent(al)) if kind == "fidelityArgs" else complex(st.purity())
+        elif kind == "wignerArgs":
+            m = rng.randrange(n)
+            modes = [m]
+            comps = [dict(w=fr(w[i]), mu=[fr(x) for x in mus[i][2 * m: 2 * m + 2]],
+                          cov=[[fr(x) for x in row[2 * m: 2 * m + 2]] for row in covs[i][2 * m: 2 * m + 2]]) for i in range(nw)]
+            x0, p0 = rng.randint(-6, 6) / 4, rng.randint(-6, 6) / 4
+            req = dict(op="st.bosonic", kind=kind, n=1, modes=modes, comps=comps, x=fr(x0), p=fr(p0))
+
+            def real(st=st, m=m, x0=x0, p0=p0):
+                # two different grid lengths: the value sits at [ip, ix]
+                return complex(np.asarray(st.wigner(m, np.array([x0 - 1, x0]), np.array([p0 - 0.5, p0 + 2, p0])))[2, 1])
         else:  # the ordering handed to thewalrus by reduced_dm / fock_prob
-            modes = sorted(rng.sample(range(n), rng.randint(1, min(n, 2))))
+            modes = sorted(rng.sample(range(n), rng.randint(1, min(n, 3))))       # the conversion is self-inverse up to two modes
             req = dict(op="st.bosonic", kind="walrus", n=n, modes=modes)
 
             def real(st=st, modes=modes):
-                return np.array(st.reduced_dm(list(modes), cutoff=3))
+                return np.array(st.reduced_dm(list(modes), cutoff=3 if len(modes) < 3 else 2))
         case["modes"] = modes
         cases.append((req, real, case, (mus, covs, w), n >= 2 and modes != list(range(n))))
     answers = ctx.lean([c[0] for c in cases])
@@ -583,6 +656,19 @@ def corr_bosonic(ctx, sf, n_cases):
             m_ = np.array([rat(model[0]), rat(model[1])])
             if np.max(np.abs(m_ - impl)) > 1e-9 * max(1.0, np.max(np.abs(m_))):
                 ctx.disagree(name, case, str(m_), str(impl))
+        elif case["kind"] in ("fidelityArgs", "purityArgs"):
+            n_ = case["n"]
+            val = 0.0
+            for comp in model:
+                d_, S_ = model_gdata(comp)
+                val += rat(comp["w"]) * math.exp(-0.5 * d_ @ np.linalg.solve(S_, d_)) / math.sqrt(np.linalg.det(S_))
+            val *= sf.hbar ** n_
+            if abs(val - impl) > 1e-9 * max(1.0, abs(val)):
+                ctx.disagree(name, case, val, impl)
+        elif case["kind"] == "wignerArgs":
+            val = sum(rat(t[0]) * math.exp(-0.5 * rat(t[1]) / rat(t[2])) / (2 * math.pi * math.sqrt(rat(t[2]))) for t in model)
+            if abs(val - impl) > 1e-9 * max(1.0, abs(val)):
+                ctx.disagree(name, case, val, impl)
         elif case["kind"] == "marginal":
             xv = np.array([-1.5, -0.25, 0.0, 0.5, 2.0])
             want = sum(rat(t[0]) * np.exp(-0.5 * (xv - rat(t[1])) ** 2 / rat(t[2])) / math.sqrt(2 * math.pi * rat(t[2]))
@@ -609,7 +695,7 @@ def corr_bosonic(ctx, sf, n_cases):
             want = 0
             for i in range(len(w)):
                 want = want + w[i] * twq.density_matrix(mus[i][ind], covs[i][np.ix_(ind, ind)], hbar=sf.hbar, normalize=False,
-                                                        cutoff=3)
+                                                        cutoff=3 if len(modes) < 3 else 2)
             if np.max(np.abs(want - impl)) > 1e-10:
                 ctx.disagree(name, case, str(ind), "reduced_dm differs from thewalrus on the model's ordering by %.3g" %
                              np.max(np.abs(want - impl)))
@@ -732,6 +818,11 @@ def probs_cutoff(n, D):
     return {1: min(D, 8), 2: 4, 3: 3}.get(n, 3)
 
 
+def dm_cutoff(k, D):
+    """cutoff for thewalrus-backed density matrices / kets of k modes (hermite polynomials: cheap, but D^(2k) entries)"""
+    return {1: D, 2: D, 3: min(D, 7), 4: 4}.get(k, 3)
+
+
 def thunks(sf, st, rep, n, D, args):
     """every method of the state object as (key, thunk, cheap); `cheap` ones are re-run in another order / after mutations"""
     t = []
@@ -761,13 +852,14 @@ def thunks(sf, st, rep, n, D, args):
                 r = st.reduced_bosonic(list(ms))
                 return (np.array(r[0]), np.array(r[1]), np.array(r[2]))
             add("reduced_bosonic:" + key, rb)
-        if len(ms) <= (2 if n <= 3 else 1):
-            add("reduced_dm:" + key, lambda ms=ms: np.array(st.reduced_dm(list(ms), **ck)), cheap=(len(ms) == 1))
+        ckm = {} if fock else dict(cutoff=dm_cutoff(len(ms), D))
+        add("reduced_dm:" + key, lambda ms=ms, ckm=ckm: np.array(st.reduced_dm(list(ms), **ckm)), cheap=(len(ms) == 1))
     for m in range(n):
         add(f"mean_photon:{m}", lambda m=m: np.array(st.mean_photon(m), dtype=float))
         for phi in args["phis"]:
             add(f"quad:{m}:{phi}", lambda m=m, phi=phi: np.array(st.quad_expectation(m, phi), dtype=float))
         add(f"wigner:{m}", lambda m=m: np.array(st.wigner(m, xvec, pvec)))
+        add(f"wigner0:{m}", lambda m=m: complex(np.asarray(st.wigner(m, np.array([0.0]), np.array([0.0]))).reshape(-1)[0]))
         if rep == "gaussian":
             add(f"fidelity:{m}", lambda m=m: st.fidelity((np.array(args["other_mu"]), np.array(args["other_cov"])), m))
         elif fock:
@@ -801,17 +893,18 @@ def thunks(sf, st, rep, n, D, args):
     for i, p in enumerate(args["polys"]):
         add(f"poly:{i}", lambda p=p: np.array(st.poly_quad_expectation(np.array(p["A"]), np.array(p["d"]), p["k"], p["phi"]),
                                                dtype=float), cheap=not fock)
-    if fock and n <= 2:
-        add("all_fock_probs", lambda: np.array(st.all_fock_probs()))
+    if fock and n <= 3:
+        add("all_fock_probs", lambda: np.array(st.all_fock_probs()), cheap=(n <= 2))
     elif not fock and n <= 3:
         # thewalrus computes every probability by a (loop) hafnian: keep the block small
         add("all_fock_probs", lambda: np.array(st.all_fock_probs(cutoff=probs_cutoff(n, D))), cheap=False)
     for pat in ([0] * n, [1] + [0] * (n - 1), [0] * (n - 1) + [2], [1] * n):
         add("fock_prob:" + ",".join(map(str, pat)), lambda pat=pat: st.fock_prob(list(pat), **ck))
-    if n <= 2:
-        add("dm", lambda: np.array(st.dm(**ck)), cheap=(n == 1))
-        if st.is_pure:
-            add("ket", lambda: np.array(st.ket(**ck)), cheap=(n == 1))
+    # the full density matrix / ket on every number of modes (code paths that only differ from three modes on)
+    ckd = {} if fock else dict(cutoff=dm_cutoff(n, D))
+    add("dm", lambda: np.array(st.dm(**ckd)), cheap=(n == 1))
+    if st.is_pure and rep != "bosonic":
+        add("ket", lambda: np.array(st.ket(**ckd)), cheap=(n == 1))
     return t
 
 
@@ -822,7 +915,9 @@ def observe(sf, st, rep, n, D, args, only_cheap=False, order=None):
         t = [x for x in t if x[2]]
     if order is not None:
         order.shuffle(t)
-    return {key: call(f) for key, f, _ in t}
+    out = {key: call(f) for key, f, _ in t}
+    out["hbar"] = float(st.hbar)
+    return out
 
 
 def snapshot(st, rep):
@@ -965,8 +1060,7 @@ def expected_fk(fk, n, args):
     """what the state's own density matrix says (own partial trace / ladder operators)"""
     e = {"trace": fk.tr}
     for ms in S.sorted_subsets(n):
-        if len(ms) <= 2:
-            e["reduced_dm:" + ",".join(map(str, ms))] = fk.reduced(ms)
+        e["reduced_dm:" + ",".join(map(str, ms))] = fk.reduced(ms)
     for m in range(n):
         e[f"mean_photon:{m}"] = np.array(fk.mean_photon(m))
         for phi in args["phis"]:
@@ -978,9 +1072,8 @@ def expected_fk(fk, n, args):
     e["fidelity_vacuum"] = float(np.real(fk.rho[(0,) * (2 * n)]))
     e["fidelity_coherent"] = fk.fidelity_coherent(args["alphas"])
     e["fidelity_coherent0"] = e["fidelity_vacuum"]
-    if n <= 2:
-        e["all_fock_probs"] = fk.probs()
-        e["dm"] = fk.rho
+    e["all_fock_probs"] = fk.probs()
+    e["dm"] = fk.rho
     for pat in ([0] * n, [1] + [0] * (n - 1), [0] * (n - 1) + [2], [1] * n):
         e["fock_prob:" + ",".join(map(str, pat))] = float(np.real(fk.rho[tuple(x for v in pat for x in (v, v))]))
     return e
@@ -1013,10 +1106,10 @@ def compare(ctx, rep, obs, exp, tol, against, rp, skip=()):
             if got[1] != "NotImplementedError":
                 ctx.fail(f"{meth}:{rep}:raises-{got[1]}", f"{rep}.{key} raised {got[1]} on a valid argument", rp)
             continue
-        if meth in ("dm", "reduced_dm") and "representation" in against and np.shape(got) == np.shape(want) and \
-                np.ndim(got) >= 2:
-            # truncated gate matrices are inexact near the cutoff edge: compare the block four levels below it
-            c = max(3, np.shape(got)[0] - 4)
+        if meth in ("dm", "reduced_dm") and "representation" in against and np.ndim(got) == np.ndim(want) and np.ndim(got) >= 2:
+            # truncated gate matrices are inexact near the cutoff edge: compare the block four levels below it (and inside the
+            # smaller of the two cutoffs)
+            c = min(np.shape(got)[0], max(3, np.shape(want)[0] - 4))
             sl = tuple([slice(0, c)] * np.ndim(got))
             got, want = np.asarray(got)[sl], np.asarray(want)[sl]
         if meth == "all_fock_probs" and np.ndim(got) == np.ndim(want) and np.shape(got) != np.shape(want):
@@ -1038,6 +1131,10 @@ def compare(ctx, rep, obs, exp, tol, against, rp, skip=()):
             ctx.fail(f"{meth}:{rep}:vs-{against}", f"{rep} {key} disagrees with the {against} (max diff {d:.3g}, shapes "
                      f"{g.shape}/{w.shape}; got {np.ravel(g)[:4]}, want {np.ravel(w)[:4]})", rp)
             ctx.failures[-1]["diff"] = d
+
+
+def hbar_of(obs):
+    return obs.get("hbar", 2.0)
 
 
 def internal_identities(ctx, rep, obs, n, D, rp, tol):
@@ -1096,12 +1193,66 @@ def internal_identities(ctx, rep, obs, n, D, rp, tol):
                     ctx.fail(f"reduced_dm:{rep}:vs-marginal-probs", f"{rep} diagonal of reduced_dm({m}) is not the marginal of "
                              "all_fock_probs()", rp)
     tol = tol0
+    dm = val("dm")
+    if dm is not None and np.ndim(dm) == 2 * n:
+        dm = np.asarray(dm)
+        c = dm.shape[0]
+        diag = np.real(np.einsum(dm, [i // 2 for i in range(2 * n)], list(range(n))))
+        tr = float(diag.sum())
+        # (a) diagonal vs fock_prob: one common factor (a pure Gaussian ket is normalised inside the cutoff), close to 1
+        ratios = []
+        for key in list(obs):
+            if key.startswith("fock_prob:") and val(key) is not None:
+                pat = tuple(int(x) for x in key.split(":")[1].split(","))
+                if max(pat) < c and abs(val(key)) > 1e-7:
+                    ratios.append((pat, float(diag[pat] / np.real(val(key)))))
+        ctx.oracle_cases += 1
+        if ratios and (max(abs(r - ratios[0][1]) for _, r in ratios) > 1e-6 * abs(ratios[0][1]) or abs(ratios[0][1] - 1) > 3e-2):
+            ctx.fail(f"dm:{rep}:diagonal-vs-fock_prob", f"{rep}: diagonal of dm() over fock_prob() is not one common factor near 1: "
+                     f"{ratios}", rp)
+        probs2 = val("all_fock_probs")
+        if probs2 is not None and ratios:
+            p2 = np.real(np.asarray(probs2))
+            c2 = min(c, p2.shape[0])
+            sl = tuple([slice(0, c2)] * n)
+            ctx.oracle_cases += 1
+            if not close(diag[sl] / ratios[0][1], p2[sl], 1e-7):
+                ctx.fail(f"dm:{rep}:diagonal-vs-all_fock_probs", f"{rep}: the diagonal of dm() is not all_fock_probs()", rp)
+        # (b) partial traces of dm() vs reduced_dm(modes): equal up to the weight beyond the cutoff
+        tail = abs(1 - tr) + (abs(ratios[0][1] - 1) if ratios else 0.0)
+        for ms in S.sorted_subsets(n):
+            r = val("reduced_dm:" + ",".join(map(str, ms)))
+            if r is None or len(ms) == n:
+                continue
+            own = sim.reduced_dm(dm, n, list(ms))
+            r = np.asarray(r)
+            c2 = min(c, r.shape[0]) - (0 if rep.startswith("fock") else 2)
+            if c2 < 2:
+                continue
+            sl = tuple([slice(0, c2)] * (2 * len(ms)))
+            ctx.oracle_cases += 1
+            if not close(own[sl] / (ratios[0][1] if ratios else 1.0), r[sl], 1e-7 + 10 * tail):
+                ctx.fail(f"dm:{rep}:partial-trace-vs-reduced_dm", f"{rep}: tracing modes out of dm() does not give reduced_dm({ms}) "
+                         f"(max diff {float(np.max(np.abs(own[sl] - r[sl]))):.3g}, tail {tail:.2g})", rp)
+        # (c) reduced_dm of all modes is dm()
+        full = val("reduced_dm:" + ",".join(map(str, range(n))))
+        if full is not None:
+            ctx.oracle_cases += 1
+            if not close(np.asarray(full), dm, 1e-10):
+                ctx.fail(f"dm:{rep}:vs-reduced_dm-of-all-modes", f"{rep}: reduced_dm(all modes) differs from dm()", rp)
     for m in range(n):
         a, b = val(f"mean_photon:{m}"), val(f"number:{m}")
         if a is not None and b is not None:
             ctx.oracle_cases += 1
             if not close(a, b, tol):
                 ctx.fail(f"number_expectation:{rep}:vs-mean_photon", f"{rep} number_expectation([{m}]) = {b} but mean_photon({m}) = {a}", rp)
+    for m in range(n):
+        par, w0 = val(f"parity:{m}"), val(f"wigner0:{m}")
+        if par is not None and w0 is not None:
+            ctx.oracle_cases += 1
+            if abs(np.real(par) - math.pi * hbar_of(obs) * float(np.real(w0))) > max(tol0, 1e-8):
+                ctx.fail(f"parity:{rep}:vs-wigner-at-origin", f"{rep} parity_expectation([{m}]) = {par} but pi hbar W(0,0) = "
+                         f"{math.pi * hbar_of(obs) * float(np.real(w0))}", rp)
     a, b = val("fidelity_vacuum"), val("fidelity_coherent0")
     if a is not None and b is not None and abs(a - b) > 1e-12:
         ctx.fail(f"fidelity_vacuum:{rep}:vs-fidelity_coherent", f"{rep} fidelity_vacuum() = {a}, fidelity_coherent(0) = {b}", rp)
@@ -1435,15 +1586,15 @@ def check_bosonic_vs_fock_once(ctx, sf, spec, D, seed):
 
 # ---------------------------------------------------------------- registers with holes
 
-def holes_spec(rng):
-    n0 = rng.choice([3, 4, 4])
+def holes_spec(rng, it=0):
+    n0 = 3 if it % 2 == 0 else 4
     ops = [o for o in sim.correlated_prefix(rng, n0)]
     dels = rng.sample(range(n0), 1 if n0 == 3 else rng.choice([1, 2]))
     if rng.random() < 0.5:
         dels = [d for d in dels if d != n0 - 1] or [0]          # a hole that is not at the end
     ops.append(dict(cls="Del", regs=sorted(dels), pars=[]))
     new = []
-    if rng.random() < 0.4:
+    if rng.random() < 0.4 and n0 == 4:
         new = [n0]
         ops.append(dict(cls="New", regs=new, pars=[]))
         ops.append(dict(cls="Sgate", regs=[n0], pars=[0.2, 0.5]))
@@ -1464,8 +1615,9 @@ def check_holes(ctx, sf, spec, D, seed):
     act = list(ref.active)
     k = len(act)
     for rep in ("gaussian", "bosonic", "fock-mixed"):
-        if rep == "fock-mixed" and any(o["cls"] == "ThermalLossChannel" for o in spec["ops"]):
-            continue
+        if rep == "fock-mixed" and (any(o["cls"] == "ThermalLossChannel" for o in spec["ops"]) or
+                                    (ctx.tier == "quick" and ps.n > 3)):
+            continue            # quick tier: no numba compilation of the rank-8 kernels
         st, eng = run_rep(sf, spec, rep, D)
         ctx.count(f"oracle:holes:{rep}", dict(spec=spec, rep=rep), True, sample=dict(spec=spec, rep=rep))
         ctx.oracle_cases += 1
@@ -1552,14 +1704,14 @@ def run(ctx, sf):
     if ctx.proof_ok:
         corr_fock(ctx, sf, ctx.n(560, 6000))
         corr_gauss(ctx, sf, ctx.n(330, 3300))
-        corr_bosonic(ctx, sf, ctx.n(250, 2500))
+        corr_bosonic(ctx, sf, ctx.n(330, 3300))
+        corr_gauss_dm(ctx, sf, ctx.n(160, 1600))
     check_post(ctx, sf, ctx.n(150, 1500))
     kinds = ["product", "product+bs", "mixed", "pure"]
-    for it in range(ctx.n(16, 180)):
+    for it in range(ctx.n(12, 180)):
         kind = kinds[it % 4]
-        n = [2, 2, 3, 2, 1, 1, 2, 4, 2, 2, 3, 2, 1, 3, 2, 4][it % 16]     # it = 5: one mode at hbar != 2
-        if ctx.tier == "quick" and n == 3 and kind != "product" and it % 3:
-            n = 2
+        # it = 5: one mode at hbar != 2; 2, 3, 8: three modes mixed / pure / product; 7, 10: four modes pure / mixed
+        n = [2, 2, 3, 3, 1, 1, 2, 4, 3, 2, 4, 2, 1, 2, 2, 2][it % 16]
         spec = S.rand_state_spec(rng, n, kind)
         hbar = HB if it % 5 else rng.choice([1.0, 0.5])
         D = {1: 14, 2: 11, 3: 7, 4: 6}[n]
@@ -1575,7 +1727,7 @@ def run(ctx, sf):
         rp = dict(kind="bosonic-vs-fock", spec=bosonic_nongauss_spec(rng, n), cutoff={1: 16, 2: 13}[n], seed=rng.getrandbits(30))
         guarded(ctx, rp, lambda: run_item(ctx, sf, rp))
     for it in range(ctx.n(4, 50)):
-        spec = holes_spec(rng)
+        spec = holes_spec(rng, it)
         rp = dict(kind="holes", spec=spec, cutoff=6 if spec["n"] == 3 else 5, seed=rng.getrandbits(30))
         guarded(ctx, rp, lambda: run_item(ctx, sf, rp))
     sf.hbar = HB
